@@ -9,7 +9,9 @@ has exactly one row - the last inserted - and rows are ordered by key"):
 pandas as assumed contracts:
     a.index.intersection(b.index)      the keys present in both
     f.loc[keys]                        the rows of f with those keys, in f's order (all of them when a key occurs several times)
-    f.loc[keys] = g                    aligns on the index: raises ValueError when g has a key twice; else replaces the rows of those keys
+    f.loc[keys] = g                    aligns on the index: raises ValueError when g has a key twice; raises TypeError when a value of g does
+                                       not fit the dtype of its column in f (pandas 3: no silent upcast on assignment); else replaces the rows
+    f.drop(index=keys)                 the rows of f whose key is not among keys, order kept
     f.index.isin(keys), ~mask, f.loc[mask] / f[mask]     boolean selection, order kept
     f.index.duplicated(keep='first'|'last')              marks all but the first / last occurrence
     pd.concat([a,b])                   rows of a then rows of b; unique iff both are and they share no key
@@ -32,6 +34,7 @@ LAST = z3.Function('frame:last', Obj, Int, Obj)
 UNIQ = z3.Function('frame:uniq', Obj, Bool)
 SRT = z3.Function('frame:sorted', Obj, Bool)
 INSET = z3.Function('keys:in', Obj, Int, Bool)
+FITS = z3.Function('frame:values-fit-dtypes-of', Obj, Obj, Bool)      # every value of the second frame fits the dtype of its column in the first
 kq = z3.Const('k!q', Int)
 
 
@@ -107,7 +110,7 @@ def build(reg, src):
 
 def configure(eng):
     eng.module_names |= {'pd', 'np'}
-    eng.opaque_methods |= {'sort_index', 'duplicated', 'intersection', 'isin', 'drop_duplicates'}
+    eng.opaque_methods |= {'sort_index', 'duplicated', 'intersection', 'isin', 'drop_duplicates', 'drop'}
     eng.stable_opaque_attrs |= {'index', 'loc'}
     eng.opaque_ops_may_raise = False
     tags = {}
@@ -156,6 +159,11 @@ def configure(eng):
             else:                 # row-wise: identical rows collapse; several rows per key may remain
                 st.assume(z3.And(uniq_def(R.t), z3.ForAll([kq], HAS(R.t, kq) == HAS(t, kq)), z3.Implies(UNIQ(t), z3.And(UNIQ(R.t), z3.ForAll([kq], z3.And(FIRST(R.t, kq) == FIRST(t, kq), LAST(R.t, kq) == LAST(t, kq)))))))
             return [(st, R)]
+        if name == 'drop':
+            ks = kwargs.get('index')
+            if args or set(kwargs) != {'index'} or not isinstance(ks, VOpaque) or tags.get(str(ks.t), (None,))[0] != 'keys':
+                raise Refuse("drop with other arguments than index=<keys>")
+            return [(st, select(st, base_frame(t), lambda k: z3.Not(INSET(ks.t, k))))]
         if name == 'sort_index':
             X = t
             inplace = kwargs.get('inplace')
@@ -237,6 +245,12 @@ def configure(eng):
                 if not ok:
                     outs.append(('raise', s2, VExc('ValueError', site=node.lineno)))       # cannot reindex on an axis with duplicate labels
                     continue
+                # pandas 3 does not upcast on assignment: a value that does not fit the column's dtype (a real into an integer column) raises
+                s3 = s2.fork()
+                s3.assume(z3.Not(FITS(F, G)))
+                if e.feasible(s3):
+                    outs.append(('raise', s3, VExc('TypeError', site=node.lineno)))
+                s2.assume(FITS(F, G))
                 N = VOpaque(hint='updated', nonnull=True)
                 s2.assume(z3.And(UNIQ(N.t) == UNIQ(F), SRT(N.t) == SRT(F), uniq_def(N.t),
                                  z3.ForAll([kq], z3.And(HAS(N.t, kq) == HAS(F, kq),
